@@ -12,7 +12,10 @@ From MevVerif Require Import lib.Bytes gen.Generated model.Topology.
 Import ListNotations.
 Open Scope N_scope.
 
-Record obs_ev := mkObs { o_eff : list effect; o_views : list (list peer); o_conn : list bool }.
+(* o_api: the provider and the bidder addresses in the answer of GET /topology (debug API handler
+   registered on the same Topology); [] when the request failed *)
+Record obs_ev := mkObs { o_eff : list effect; o_views : list (list peer); o_conn : list bool;
+                         o_api : list (list addr) }.
 
 Record case := mkCase {
   id : N;
@@ -62,7 +65,7 @@ Definition effect_eqb (a b : effect) : bool :=
 
 (* --- the model's observation of a history ------------------------------------------------------ *)
 Definition observe (pr : list addr) (s : state) (eff : list effect) : obs_ev :=
-  mkObs eff (map (fun r => get_peers r s) view_roles) (map (fun a => is_connected a s) pr).
+  mkObs eff (map (fun r => get_peers r s) view_roles) (map (fun a => is_connected a s) pr) (api_view s).
 Fixpoint run_obs (pr : list addr) (s : state) (l : list event) : list obs_ev :=
   match l with
   | [] => []
@@ -72,7 +75,8 @@ Fixpoint run_obs (pr : list addr) (s : state) (l : list event) : list obs_ev :=
 Definition obs_eqb (a b : obs_ev) : bool :=
   ms_eqb effect_eqb (o_eff a) (o_eff b)
   && list_eqb (ms_eqb peer_eqb) (o_views a) (o_views b)
-  && list_eqb Bool.eqb (o_conn a) (o_conn b).
+  && list_eqb Bool.eqb (o_conn a) (o_conn b)
+  && list_eqb (ms_eqb N.eqb) (o_api a) (o_api b).
 
 (* the worker pool is not modelled: a case must keep fewer Connect calls in flight than
    checkWorkers (regenerated from discovery.go), otherwise it is outside the model's domain *)
@@ -135,13 +139,19 @@ Definition set_view_ok (r : Z) (S : list addr) (v : list peer) : bool :=
   forallb (fun q => (p_role q =? r)%Z && amem (p_addr q) S) v
   && forallb (fun a => amem a (map p_addr v)) S
   && nodup_addrs (map p_addr v).
+Definition set_addrs_ok (S : list addr) (l : list addr) : bool :=
+  forallb (fun a => amem a S) l && forallb (fun a => amem a l) S && nodup_addrs l.
 Definition view_ok (A : abs) (pr : list addr) (o : obs_ev) : bool :=
   match o_views o with
   | [v0; v1; v2; v3] =>
       is_nil v0 && is_nil v3 && set_view_ok ROLE_PROVIDER (aP A) v1 && set_view_ok ROLE_BIDDER (aB A) v2
   | _ => false
   end
-  && list_eqb Bool.eqb (o_conn o) (map (fun a => abs_connected a A) pr).
+  && list_eqb Bool.eqb (o_conn o) (map (fun a => abs_connected a A) pr)
+  && match o_api o with
+     | [ap; ab] => set_addrs_ok (aP A) ap && set_addrs_ok (aB A) ab
+     | _ => false
+     end.
 
 (* announce clauses of one Connected p event; A is the abstract state after adding p *)
 Definition expected_records (A : abs) (p : peer) (lk : list (peer * bytes)) : list record :=
